@@ -589,7 +589,7 @@ def stage4 (c : RelCfg) (rows : List RRow) : List RRow :=
   let r1 := rows.filter (fun r => Rel.before c.rev r.time c.stop)
   let r2 := if c.continuous then Rel.discretize c r1 else r1
   let r3 := r2.filter (fun r => !(Rel.before c.rev r.time c.start))
-  if c.warm then r3.filter (fun r => r.time > c.start) else r3
+  if c.warm then r3.filter (fun r => !(Rel.before c.rev r.time (if c.rev then c.start - c.dt else c.start + c.dt))) else r3
 
 def addc (x : RRow) : RRow := { x with cols := x.cols ++ [("release_time", Val.num x.time)] }
 
@@ -635,8 +635,14 @@ theorem stage4_shift (c : RelCfg) (d : Int) (rows : List RRow) :
   rw [filter_shift d (fun t => !(Rel.before c.rev t c.start)) (fun t => !(Rel.before c.rev t (c.start + d)))
     (fun t => by simp only [before_shift])]
   split
-  · exact filter_shift d (fun t => decide (t > c.start)) (fun t => decide (t > c.start + d))
-      (fun t => by simp) _
+  · exact filter_shift d
+      (fun t => !(Rel.before c.rev t (if c.rev then c.start - c.dt else c.start + c.dt)))
+      (fun t => !(Rel.before c.rev t (if c.rev then c.start + d - c.dt else c.start + d + c.dt)))
+      (fun t => by
+        have e : (if c.rev then c.start + d - c.dt else c.start + d + c.dt) =
+            (if c.rev then c.start - c.dt else c.start + c.dt) + d := by
+          split <;> omega
+        rw [e, before_shift]) _
   · rfl
 
 /-- what is compared of a row: multiplicity and the columns other than the absolute release time -/
